@@ -80,7 +80,11 @@ shutil.copytree(os.path.join(wt, 'seed_demo'), os.path.join(dst, 'seed_demo'),
 if os.path.exists(os.path.join(wt, 'SEED_NOTES.md')):
     shutil.copy(os.path.join(wt, 'SEED_NOTES.md'), os.path.join(dst, 'NOTES.md'))
 
-# evaluate the checks against the patch applied to /repo
+# evaluate the checks against the patch applied to /repo (one at a time:
+# several confirmations may run their demos/suites in parallel)
+import fcntl
+_lock = open('/tmp/seed_confirm.lock', 'w')
+fcntl.flock(_lock, fcntl.LOCK_EX)
 rc, out = sh('git -C /repo status --porcelain')
 assert not out.strip(), '/repo is dirty: %s' % out
 rc, out = sh('git -C /repo apply %s' % os.path.join(dst, 'patch.diff'))
